@@ -245,6 +245,20 @@ def run(ck, m):
     ck.min_instances("R5", 5)
     ck.min_instances("R3", 8)
 
+    # module-level state (hand-rolled memos included): which function may rebind which global of utils / the package root
+    GLOBAL_WRITERS = {(U, "_cell_size_cache"): {"_process_run_wrapper", "_process_start_wrapper"}, (U, "_cell_size_lock"): {"_process_run_wrapper", "_process_start_wrapper"},
+                      (U, "_tty_lock"): {"_process_run_wrapper", "_process_start_wrapper"}, (I, "_cell_ratio"): {"set_cell_ratio"}}
+    for rel_, _q2, fn_ in m.functions():
+        if rel_ not in (U, I) or not isinstance(fn_, ast.FunctionDef):
+            continue
+        if True:
+            gl = {n_ for g_ in ast.walk(fn_) if isinstance(g_, ast.Global) for n_ in g_.names}
+            for n_ in ast.walk(fn_):
+                if isinstance(n_, ast.Name) and isinstance(n_.ctx, ast.Store) and n_.id in gl:
+                    okw = fn_.name in GLOBAL_WRITERS.get((rel_, n_.id), set())
+                    ck.ob("R2", enclosing_stmt(n_), okw, f"{fn_.name} rebinds the module global `{n_.id}` - process-wide state remembered between calls (a hand-rolled memo) that is keyed to nothing and that none of the "
+                          "invalidation points (enable_queries, enable/disable_win_size_swap, a terminal resize) resets", stmt=f"module state writers: {rel_}::{n_.id} by {fn_.name}")
+
     from rules.common import rule_memo_safety
     rule_memo_safety(ck, m, "MEMO", "C15")
 
